@@ -127,7 +127,10 @@ PROP = dict(
                  10: "Ok (KarmarkarKarp through coupe::Real, inexactly scaled weights: checker only, exact arithmetic with tolerance)",
                  9: "Ok (Greedy, genuine f64 weights: compared bit-for-bit, LPT replayed in rounded arithmetic)"},
     trusted_base=[
-        "axioms: none (every theorem of Properties/C12.v is closed under the global context)",
+        "axioms: none for every theorem of Properties/C12.v except C12_f64_add_closed, C12_greedy_is_lpt_f64 and "
+        "C12_greedy_total_f64, which go through Flocq's real-number semantics of binary64 and depend on the standard axioms "
+        "of Coq's classical reals (ClassicalDedekindReals.sig_forall_dec, ClassicalDedekindReals.sig_not_dec, "
+        "FunctionalExtensionality.functional_extensionality_dep, Classical_Prop.classic); Flocq 4.1 is trusted as a library",
         "modelled, not verified: i64 overflow of part loads / row sums (contract: sums do not overflow); allocation of "
         "`part_count` loads (Greedy) or `part_count * n` virtual ids (KarmarkarKarp)",
         "std BinaryHeap on pairwise distinct elements of a total order pops in descending order (modelled as a sorted list); "
@@ -143,8 +146,9 @@ PROP = dict(
         "f64: the Greedy property is read in ROUNDED arithmetic -- the loads are those accumulated by the code's own sequence "
         "of additions (weights in non-increasing order); loads recomputed in another order or exactly may differ in the last bits",
         "f64: Coq's SpecFloat SFadd / SFltb / SFeqb at (53,1024) are the CPU's binary64 +, <, == (validated bit-for-bit on every "
-        "genuine-f64 case); premise of C12_greedy_is_lpt_f64 not proved here: the rounded sum of two non-negative numbers is a "
-        "non-negative number, never NaN, never -0.0 (add_closed F64arith okF)",
+        "genuine-f64 case); the closure law of the f64 theorem -- the rounded sum of two non-negative numbers is a "
+        "non-negative number, never NaN, never -0.0, possibly +infinity -- is PROVED for SpecFloat through Flocq "
+        "(C12_f64_add_closed), so C12_greedy_is_lpt_f64 has no premise about the arithmetic; -0.0 weights stay outside",
     ],
 )
 
@@ -161,7 +165,7 @@ MANIFEST = dict(
          "the literals the models hard-code are re-read from the source on every run (C12_source_literals). Greedy is also "
          "modelled over an abstract weight arithmetic (zero, +, <, ==; order laws only, no associativity): "
          "C12_greedy_is_lpt_generic proves the LPT statement for the code's own sequence of rounded additions, instantiated "
-         "for Z and for binary64 (order laws proved for SpecFloat; closure of + as a premise); genuine f64 inputs are "
+         "for Z and for binary64 (order laws and closure of + proved for SpecFloat, the latter through Flocq); genuine f64 inputs are "
          "compared bit-for-bit with the SpecFloat instance.",
     design_ref="DESIGN.md §7 C12",
     note="Trusted: Coq kernel; model<->code tie = translator (13 literals, incl. the order of coupe::Real in src/real.rs) + differential runs (5k/30k cases, i64 and f64); "
